@@ -4442,7 +4442,7 @@ EmitModVSib:
         goto InvalidAddress;
 
       mod += op_reg << 3;
-      if (rel_offset == 0 && mod != 0x06) {
+      if (rel_offset == 0 && (mod & 0x07u) != 0x06u) {
         writer.emit8(mod);
       }
       else if (Support::is_int_n<8>(rel_offset)) {
